@@ -15,7 +15,11 @@ def _coerce_status(exc: BaseException) -> int | None:
         if isinstance(val, int):
             return val
     # Common pattern in HTTP libraries: args may include status
-    for arg in getattr(exc, "args", ()):
+    args = getattr(exc, "args", ())
+    if not isinstance(args, tuple | list):
+        # A subclass may shadow `args` with anything (None, a number, ...): nothing to scan then.
+        return None
+    for arg in args:
         if isinstance(arg, int) and 100 <= arg <= 599:
             return arg
     return None
